@@ -1,11 +1,15 @@
 use crate::report::{CheckOutput, Ctx};
 
 pub mod c02;
+pub mod c09;
+pub mod c12;
 pub mod common;
 
 pub fn run(ctx: &Ctx) -> Option<CheckOutput> {
 	Some(match ctx.id.as_str() {
 		"C02" => c02::run(ctx),
+		"C09" => c09::run(ctx),
+		"C12" => c12::run(ctx),
 		_ => return None,
 	})
 }
@@ -25,6 +29,8 @@ pub fn replay_file(path: &str) -> i32 {
 	let run_once = || -> Option<String> {
 		match prop.as_str() {
 			"C02" => c02::replay(case),
+			"C09" => c09::replay(case),
+			"C12" => c12::replay(case),
 			_ => Some(format!("no replayer for {prop}")),
 		}
 	};
